@@ -233,6 +233,16 @@ class Index:
         for name, (path, src) in (extra_files or {}).items():
             self._load(path, name=name, src=src)
         self._link()
+        self.local_renames: dict[str, dict[str, str]] = {}
+        if not os.environ.get("VERIF_NO_LOCALREF"):
+            from .localref import load_reference, normalise
+            ref = load_reference()
+            for q, fmap in ref.items():
+                fi = self.functions.get(q)
+                if fi is not None and fi.parent is None:
+                    mp = normalise(fi.node, fmap)
+                    if mp:
+                        self.local_renames[q] = mp
 
     # ---- loading
 
